@@ -64,6 +64,15 @@ class SegBuf:
     def copy(self):
         return SegBuf(self.segs, self.name)
 
+    def truth(self, fr, node):
+        n = self.length()
+        if isinstance(n, int):
+            return n != 0
+        return not B.decide_eq0(n, "buffer is empty")
+
+    def abstract_isinstance(self, c):
+        return getattr(c, "name", None) in ("bytearray", "bytes", "object")
+
     # ---- conversions
     @staticmethod
     def segments_of(v):
